@@ -161,14 +161,15 @@ theorem rstep_handle_other (s : State) (m : Msg) (hp : s.park = none) (h : isNew
   | startTask w => show RStep (pi s) (pi (startTask s w)); rw [pi_startTask]; exact RStep.same _
   | getUpdates w => show RStep (pi s) (pi (getUpdates s w)); rw [pi_getUpdates]; exact RStep.same _
   | finishTask w err => exact tos_rstep (tos_finishTask s w err)
-  | closeNetErr id pub =>
-    show RStep (pi s) (pi (clearPubWait (abortRequest s id .network).1 pub))
-    rw [pi_clearPubWait]
-    exact tos_rstep (tos_abortRequest s id .network)
-  | terminate id pub =>
-    show RStep (pi s) (pi (clearPubWait (terminate s id) pub))
-    rw [pi_clearPubWait]
-    exact tos_rstep (tos_terminate s id)
+  | closeNetErr id inc pub =>
+    rcases pi_handle_closeNetErr s id inc pub with h1 | h1
+    · rw [h1]; exact tos_rstep (tos_abortRequest s id .network)
+    · rw [h1]; exact RStep.same _
+  | terminate id inc pub =>
+    rw [handle_terminate, pi_clearPubWait]
+    split
+    · exact tos_rstep (tos_terminate s id)
+    · exact RStep.same _
 
 theorem rstep_mgr {s s' : State} (h : mgrStep s = some s') : RStep (pi s) (pi s') := by
   unfold mgrStep at h
